@@ -16,10 +16,10 @@ def jobs(tier, s0):
                     out.append((_scn(n, proto, cycles=3, seed=sd, runner='c12', obj=obj), {'d': 0}))
         out.append((_scn(n, 'cont3z', cycles=2, seed=s0, runner='c12'),
                     {'d': 1, 'range': 'init' if tier == 'quick' else 'all'}))
-        if tier == 'quick':
-            # first-cycle deviations at a reduced, still accepted, population (halves the choice points)
-            pass
-        else:
+        # every accepted one-parameter deviation of an algorithm parameter (rarely used strategies / branches)
+        for f, v in registry.param_deviations(n):
+            out.append((_scn(n, 'cont3z', cycles=3, seed=s0, runner='c12', over={f: v}), {'d': 0}))
+        if tier != 'quick':
             for proto in ('mixed3', 'mo2'):
                 out.append((_scn(n, proto, cycles=2, seed=s0, runner='c12'), {'d': 1, 'range': 'first'}))
     return out
